@@ -324,21 +324,46 @@ pub fn parse_history(text: &str) -> Option<(usize, Vec<Op>)> {
     Some((seed, ops))
 }
 
+/// How the explorer reached a state.  The cloning explorers copy the parent state (the deque's
+/// own `Clone`) before every op, which leaves the backing container with exactly-fitting capacity;
+/// the straight explorer re-executes the history on one object, so capacities follow the
+/// container's amortised growth.  Both are legitimate client histories, and code whose behaviour
+/// depends on spare capacity behaves differently under them, so the replay must use the same one.
+#[derive(Clone, Copy, PartialEq, Eq, Debug)]
+pub enum Mode {
+    CloneBeforeEachOp,
+    Straight,
+}
+
+impl Mode {
+    pub fn name(self) -> &'static str {
+        match self {
+            Mode::CloneBeforeEachOp => "clone-before-each-op",
+            Mode::Straight => "straight",
+        }
+    }
+}
+
 /// Replays a history from scratch (no explorer).  Err = violation description.
-pub fn run_history<C: Backing>(seed_items: usize, path: &[Op]) -> Result<(), String> {
+pub fn run_history<C: Backing>(seed_items: usize, path: &[Op], mode: Mode) -> Result<(), String> {
     let mut st: State<C> = State::new(seed_items);
-    st.apply(Op::Adv0)
-        .map_err(|e| format!("initial state: {}", e))?;
+    if mode == Mode::Straight {
+        st.apply(Op::Adv0)
+            .map_err(|e| format!("initial state: {}", e))?;
+    }
     for (i, op) in path.iter().enumerate() {
+        if mode == Mode::CloneBeforeEachOp {
+            st = st.clone();
+        }
         st.apply(*op)
             .map_err(|e| format!("step {} ({}): {}", i + 1, op.name(), e))?;
     }
     Ok(())
 }
 
-fn violation<C: Backing>(rep: &mut Report, seed_items: usize, path: &[Op], err: &str) {
+fn violation<C: Backing>(rep: &mut Report, seed_items: usize, path: &[Op], err: &str, mode: Mode) {
     // Re-execute from the recorded history; it must reproduce.
-    let again = run_history::<C>(seed_items, path);
+    let again = run_history::<C>(seed_items, path, mode);
     if again.is_ok() {
         machinery_failure(&format!(
             "violation did not reproduce on replay: {} / {}",
@@ -349,10 +374,11 @@ fn violation<C: Backing>(rep: &mut Report, seed_items: usize, path: &[Op], err: 
     let hist = render(seed_items, path);
     rep.violation(Violation {
         key: format!("C15:{}:{}", C::NAME, hist.replace(' ', "")),
-        summary: format!("SlidingDeque<{}> after [{}]: {}", C::NAME, hist, err),
+        summary: format!("SlidingDeque<{}> after [{}] ({}): {}", C::NAME, hist, mode.name(), err),
         replay_text: format!(
-            "check: sliding\nbacking: {}\nhistory: {}\nobserved: {}\n",
+            "check: sliding\nbacking: {}\nmode: {}\nhistory: {}\nobserved: {}\n",
             C::NAME,
+            mode.name(),
             hist,
             err
         ),
@@ -366,8 +392,8 @@ pub fn closure(rep: &mut Report, cap: usize) -> HashSet<(usize, usize)> {
     let mut frontier: VecDeque<(State<C>, usize, Vec<Op>)> = VecDeque::new();
     for seed in 0..=cap {
         let st: State<C> = State::new(seed);
-        if let Err(e) = run_history::<C>(seed, &[]) {
-            violation::<C>(rep, seed, &[], &e);
+        if let Err(e) = run_history::<C>(seed, &[], Mode::Straight) {
+            violation::<C>(rep, seed, &[], &e, Mode::Straight);
             continue;
         }
         if seen.insert(st.shape()) {
@@ -385,7 +411,7 @@ pub fn closure(rep: &mut Report, cap: usize) -> HashSet<(usize, usize)> {
             rep.transitions += 1;
             rep.count("closure_transitions", 1);
             match next.apply(op) {
-                Err(e) => violation::<C>(rep, seed, &npath, &e),
+                Err(e) => violation::<C>(rep, seed, &npath, &e, Mode::CloneBeforeEachOp),
                 Ok(()) => {
                     rep.max_depth = rep.max_depth.max(npath.len() as u64);
                     let key = next.shape();
@@ -422,7 +448,7 @@ impl<C: Backing> Dfs<'_, C> {
             match next.apply(op) {
                 Err(e) => {
                     let path = self.path.clone();
-                    violation::<C>(self.rep, self.seed, &path, &e);
+                    violation::<C>(self.rep, self.seed, &path, &e, Mode::CloneBeforeEachOp);
                 }
                 Ok(()) => {
                     if next.nontrivial() {
@@ -489,15 +515,16 @@ pub fn dfs<C: Backing>(
             }
             if let Err(e) = st.apply(a) {
                 if b == OPS[0] {
-                    violation::<C>(rep, seed, &path, &e);
+                    violation::<C>(rep, seed, &path, &e, Mode::CloneBeforeEachOp);
                 }
                 continue;
             }
             path.push(b);
             rep.evaluations += 1;
             rep.transitions += 1;
+            let mut st = st.clone();
             if let Err(e) = st.apply(b) {
-                violation::<C>(rep, seed, &path, &e);
+                violation::<C>(rep, seed, &path, &e, Mode::CloneBeforeEachOp);
                 continue;
             }
             if depth > 2 {
@@ -513,6 +540,49 @@ pub fn dfs<C: Backing>(
             }
             rep.max_depth = rep.max_depth.max(depth as u64);
         }
+    }
+}
+
+/// Depth-bounded enumeration of all op sequences executed on ONE object each (no clones):
+/// every history is re-executed from scratch, so the backing container's capacity follows its
+/// real growth policy.  Only the last op of each history is new, so only it is counted.
+pub fn dfs_straight<C: Backing>(ctx: &Ctx, rep: &mut Report, seed: usize, depth: usize, unit_base: &mut usize) {
+    let n = OPS.len();
+    for len in 1..=depth {
+        let total = n.pow(len as u32);
+        let mut idx = 0usize;
+        while idx < total {
+            // partition on the first two ops (most significant digits)
+            let block = if len >= 2 { n.pow((len - 2) as u32) } else { total };
+            let unit = *unit_base + idx / block;
+            if !ctx.owns(unit) {
+                idx += block;
+                continue;
+            }
+            for j in idx..idx + block {
+                let mut path = Vec::with_capacity(len);
+                let mut x = j;
+                let mut digits = vec![0usize; len];
+                for d in (0..len).rev() {
+                    digits[d] = x % n;
+                    x /= n;
+                }
+                for d in digits {
+                    path.push(OPS[d]);
+                }
+                rep.evaluations += 1;
+                rep.transitions += len as u64;
+                rep.count("straight_histories", 1);
+                if let Err(e) = run_history::<C>(seed, &path, Mode::Straight) {
+                    // report only if the failure is at the last step (shorter prefixes were reported at their own length)
+                    if e.starts_with(&format!("step {} ", len)) {
+                        violation::<C>(rep, seed, &path, &e, Mode::Straight);
+                    }
+                }
+            }
+            idx += block;
+        }
+        *unit_base += if len >= 2 { n * n } else { 1 };
     }
 }
 
@@ -539,6 +609,11 @@ pub fn run(ctx: &Ctx) -> Report {
         dfs::<SpyVec<u32>>(ctx, &mut rep, Some(&cl), cap, seed, depth - 1, &mut unit);
         dfs::<SmallVec<[u32; 2]>>(ctx, &mut rep, None, cap, seed, depth - 1, &mut unit);
     }
+    // The same alphabet without clones (capacities follow the container's growth policy), one level shallower.
+    dfs_straight::<Vec<u32>>(ctx, &mut rep, 0, depth - 2, &mut unit);
+    dfs_straight::<SmallVec<[u32; 2]>>(ctx, &mut rep, 0, depth - 2, &mut unit);
+    dfs_straight::<SmallVec<[u32; 2]>>(ctx, &mut rep, 3, depth - 2, &mut unit);
+    rep.note(format!("C15: the cloning explorers copy the deque before every op (exactly-fitting capacity, so every push meets a full container); the straight explorer re-executes all histories to depth {} on one object (amortised capacities)", depth - 2));
     rep.note(format!(
         "C15: closure over (physical length, consumed prefix) with logical length <= {} reached a fix-point; DFS of all {}-op sequences completed to depth {} (fresh) / {} (From<container> with 3 and 5 items) on Vec, SmallVec<[u32;2]> and SpyVec backings; debug_assertions={}",
         cap,
@@ -560,10 +635,14 @@ pub fn replay(text: &str) -> Result<String, String> {
     let Some((seed, ops)) = parse_history(hist) else {
         machinery_failure("cannot parse history");
     };
+    let mode = match field(text, "mode") {
+        Some("clone-before-each-op") => Mode::CloneBeforeEachOp,
+        _ => Mode::Straight,
+    };
     let r = match backing {
-        "Vec" => run_history::<Vec<u32>>(seed, &ops),
-        "SmallVec2" => run_history::<SmallVec<[u32; 2]>>(seed, &ops),
-        _ => run_history::<SpyVec<u32>>(seed, &ops),
+        "Vec" => run_history::<Vec<u32>>(seed, &ops, mode),
+        "SmallVec2" => run_history::<SmallVec<[u32; 2]>>(seed, &ops, mode),
+        _ => run_history::<SpyVec<u32>>(seed, &ops, mode),
     };
     match r {
         Err(e) => Ok(format!("[{}] {}", hist, e)),
